@@ -320,9 +320,14 @@ def apply_rubber_band(molecule, selector,
 
     coordinates = np.stack(coordinates)
     if np.any(np.isnan(coordinates)):
+        # The molecule type name lives in the meta data; `Molecule` has no
+        # `moltype` attribute unless somebody set one.
+        moltype = getattr(molecule, 'moltype', None)
+        if moltype is None:
+            moltype = molecule.meta.get('moltype', 'molecule')
         LOGGER.warning("Found nan coordinates in molecule {}. "
                        "Will not generate an EN for it. ",
-                       molecule.moltype,
+                       moltype,
                        type='unmapped-atom')
         return
 
